@@ -96,6 +96,11 @@ type c12Exec struct {
 	// patch class "marked": the operations of the patch file (the own Create first), see c12Marked
 	pops []c12POp
 
+	// sixth wave: chance (percent, per file kind) that the generated text is padded so that a landmark
+	// of it falls on a read boundary, see c12SizeRandom; what was done, for the input distribution
+	sizePct   map[string]int
+	sizeNotes []string
+
 	// observed
 	status   string
 	admProp  bool
@@ -361,6 +366,144 @@ func c12Malform(rng *Rng, shape string, recs []string, sep string) string {
 		return last + PickOne(rng, []string{"", "\n", " "}) + last + "\n"
 	}
 	return join(recs)
+}
+
+// ---------------------------------------------------------------- sixth wave: the SIZE of an output file
+//
+// The readers of the output files take their input in pieces (encoding/json's Decoder reads 512 bytes
+// first and grows its buffer to 1536, 3584, 7680 ...; io.ReadAll starts with 512 bytes; bufio with
+// 4096): "what follows the first document" may or may not have been read yet when a reader decides.
+// Whether a file is well-formed does not depend on where these boundaries fall, so the generator puts
+// the landmarks of a text — the end of its first value, the end of the white space after it, its end —
+// exactly on, one before and one after such a boundary, by padding that never changes what the text
+// means: white space before the text / after the first `{` / after the first value, or an ignored
+// field holding one long string after the first `{`.
+var c12ReadBoundaries = []int{512, 512, 512, 512, 1536, 1536, 1536, 3584, 3584, 1024, 2048, 4096, 7680, 8192}
+
+// the first JSON value of a text: where it starts and ends, and where the white space after it ends
+func c12FirstValue(text string) (int, int, int, bool) {
+	dec := json.NewDecoder(strings.NewReader(text))
+	var raw json.RawMessage
+	if err := dec.Decode(&raw); err != nil {
+		return 0, 0, 0, false
+	}
+	end := int(dec.InputOffset())
+	wsEnd := end
+	for wsEnd < len(text) && strings.ContainsRune(" \t\r\n", rune(text[wsEnd])) {
+		wsEnd++
+	}
+	return end - len(raw), end, wsEnd, true
+}
+
+func c12WsPad(rng *Rng, n int, spacesOnly bool) string {
+	if spacesOnly || rng.Chance(40) {
+		return strings.Repeat(" ", n)
+	}
+	b := make([]byte, n)
+	for i := range b {
+		const ws = " \n\t \r "
+		b[i] = ws[rng.Intn(len(ws))]
+	}
+	return string(b)
+}
+
+// c12Size pads text so that the landmark ("first": end of the first value; "firstws": end of the
+// white space after it; "total": end of the text) is at byte offset `at`. pad: "before" (white space
+// in front), "inside" (white space after the first `{`), "field" (an ignored field after the first `{`),
+// "after" (white space after the first value). false = not possible for this text.
+func c12Size(rng *Rng, kind, text string, at int, landmark, pad string) (string, bool) {
+	start, end, wsEnd, ok := c12FirstValue(text)
+	var lm int
+	switch {
+	case landmark == "total":
+		lm = len(text)
+	case !ok:
+		return "", false
+	case landmark == "first":
+		lm = end
+	default:
+		lm = wsEnd
+	}
+	need := at - lm
+	if need < 0 {
+		return "", false
+	}
+	if need == 0 {
+		return text, true
+	}
+	brace := -1 // the `{` that opens the first value (or the text, when the first value is damaged)
+	if ok && text[start] == '{' {
+		brace = start
+	} else if !ok {
+		if t := strings.TrimLeft(text, " \t\r\n"); strings.HasPrefix(t, "{") {
+			brace = len(text) - len(t)
+		}
+	}
+	spacesOnly := kind == "patch" // a damaged patch text goes to the YAML reader: no tabs
+	var out string
+	switch pad {
+	case "before":
+		out = c12WsPad(rng, need, spacesOnly) + text
+	case "after":
+		if !ok || landmark == "first" {
+			return "", false
+		}
+		out = text[:end] + c12WsPad(rng, need, spacesOnly) + text[end:]
+	case "inside":
+		if brace < 0 {
+			return "", false
+		}
+		out = text[:brace+1] + c12WsPad(rng, need, spacesOnly) + text[brace+1:]
+	case "field":
+		// not for the patch file (its fields are checked against the list of known ones)
+		if brace < 0 || kind == "patch" {
+			return "", false
+		}
+		rest := strings.TrimLeft(text[brace+1:], " \t\r\n")
+		f, min := `"pad":"%s",`, 9
+		if !ok || strings.HasPrefix(rest, "}") || rest == "" {
+			f, min = `"pad":"%s"`, 8
+			if !strings.HasPrefix(rest, "}") {
+				return "", false
+			}
+		}
+		if need < min {
+			return "", false
+		}
+		out = text[:brace+1] + fmt.Sprintf(f, strings.Repeat(PickOne(rng, []string{"p", "a", "}", "{", " "}), need-min)) + text[brace+1:]
+	default:
+		return "", false
+	}
+	return out, true
+}
+
+// c12SizeRandom: a random landmark on (60%) / next to a random read boundary, by a random padding
+func c12SizeRandom(rng *Rng, kind, text string) (string, string, bool) {
+	if kind == "patch" && !strings.HasPrefix(strings.TrimLeft(text, " \t\r\n"), "{") {
+		return "", "", false // a YAML patch: indentation matters
+	}
+	wasYAML := kind == "patch" && c12IsYAML(text)
+	for try := 0; try < 6; try++ {
+		b := PickOne(rng, c12ReadBoundaries)
+		d := PickOne(rng, []int{0, 0, 0, 0, 0, 0, -1, 1, 1, 2})
+		lm := PickOne(rng, []string{"first", "first", "firstws", "firstws", "total"})
+		pad := PickOne(rng, []string{"inside", "inside", "field", "field", "before", "after"})
+		t, ok := c12Size(rng, kind, text, b+d, lm, pad)
+		if !ok || t == text {
+			continue
+		}
+		if kind == "patch" && c12IsYAML(t) != wasYAML {
+			continue // (the generator stays out of "damaged JSON that a YAML reader accepts")
+		}
+		ds := "on"
+		if d < 0 {
+			ds = "before"
+		} else if d > 0 {
+			ds = "after"
+		}
+		return t, fmt.Sprintf("%s-%s-boundary-%d", lm, ds, b), true
+	}
+	return "", "", false
 }
 
 func c12MetricName(eid int) string { return fmt.Sprintf("c12_m_%d", eid) }
@@ -781,6 +924,12 @@ func (e *c12Env) writeScripts(x *c12Exec, rng *Rng) error {
 			continue
 		}
 		if content, ok, pf := c12Content(kind, class, x.eid, rng); ok {
+			if p := x.sizePct[kind]; p > 0 && rng.Chance(p) {
+				if t, note, ok := c12SizeRandom(rng, kind, content); ok {
+					content = t
+					x.sizeNotes = append(x.sizeNotes, "sized-file:"+kind, "sized-at:"+note)
+				}
+			}
 			if err := os.WriteFile(filepath.Join(d, kind), []byte(content), 0o644); err != nil {
 				return err
 			}
@@ -1220,6 +1369,8 @@ func c12GenExec(rng *Rng, eid, nhooks, nq int) *c12Exec {
 		// leaves such a file behind in about half of the cases
 		x.patch = "marked"
 	}
+	// sixth wave: one generated text in eight gets a landmark on / next to a read boundary
+	x.sizePct = map[string]int{"metrics": 12, "admission": 12, "conversion": 12, "patch": 12}
 	return x
 }
 
@@ -1239,6 +1390,9 @@ func c12Notes(c *Case, xs []*c12Exec) {
 		c.Note("admission:" + x.adm)
 		c.Note("conversion:" + x.conv)
 		c.Note("patch:" + x.patch)
+		for _, n := range x.sizeNotes {
+			c.Note(n)
+		}
 		if x.exit != 0 {
 			for _, o := range x.pops {
 				if o.isPatch {
@@ -1343,7 +1497,8 @@ func runC12(r *Run) {
 		"every execution goes through the real taskHandler -> handleRunHook -> Hook.Run with a real process, real MetricStorage and kube-client/fake; " +
 		"the hook records pwd, the six path variables, initial file sizes and the context file, and checks from its own working directory that every variable names a file it can read and write. " +
 		"Fourth wave: 12% of the executions (45% of those with a non-zero exit) write a patch file of 1-4 MergePatch / JSONPatch / JQPatch operations, each on its own object, with every combination of ignoreHookError and subresource (none, /status, other spellings) plus the own Create — which of them took effect is observed per operation; " +
-		"24 (thorough: 160) further cases run one at a time with the directories configured the way bootstrap.go does it: the process changes into an operator working directory that is not the hooks directory, --hooks-dir / --tmp-dir (or the environment variables) go through the real flag definitions, RequireExistingDirectory and EnsureTempDirectory, spelled absolute, relative, ./relative, with a trailing slash, through sub/.., with // and /./, through dir/../dir, through a relative or absolute symbolic link; the temp dir existing or not before the start, inside or beside the working directory. 35% of the cases add a hook whose name (189-193 characters) makes the creation of the 4th / 3rd / 1st temp file fail (NAME_MAX) and run it once more at the end: not started, failed, nothing left behind. Non-trivial = at least 2 executions or a non-empty output/non-zero exit."
+		"24 (thorough: 160) further cases run one at a time with the directories configured the way bootstrap.go does it: the process changes into an operator working directory that is not the hooks directory, --hooks-dir / --tmp-dir (or the environment variables) go through the real flag definitions, RequireExistingDirectory and EnsureTempDirectory, spelled absolute, relative, ./relative, with a trailing slash, through sub/.., with // and /./, through dir/../dir, through a relative or absolute symbolic link; the temp dir existing or not before the start, inside or beside the working directory. 35% of the cases add a hook whose name (189-193 characters) makes the creation of the 4th / 3rd / 1st temp file fail (NAME_MAX) and run it once more at the end: not started, failed, nothing left behind. " +
+		"Sixth wave (file SIZE): 12% of the generated texts — and every execution of 16 (thorough: 240) further cases, plus corpus case 11 for 512 / 1536 / 3584 bytes in each of the four files — are padded (white space in front / after the first brace / after the first value, or an ignored field holding one long string) so that the end of the first JSON value, the end of the white space after it, or the end of the text falls exactly on (60%), one byte before or one / two bytes after a boundary at which a reader has just filled its buffer (512, 1024, 1536, 2048, 3584, 4096, 7680, 8192 bytes): well-formed texts of exactly that size, and texts with garbage / a stray closer / a second document / a cut right behind it. Non-trivial = at least 2 executions or a non-empty output/non-zero exit."
 	app.DebugKeepTmpFilesVar = "no"
 
 	// corpus 0: every failure stage in one case, sequentially
@@ -1513,6 +1668,136 @@ func runC12(r *Run) {
 		c12Notes(c, xs)
 		c.Note("corpus")
 		c.Desc = "corpus: stray closing brackets / trailing garbage / a second document at a record boundary, in each of the four output files"
+		c.Nontrivial = true
+	})
+
+	// sixth wave, corpus 11: the SIZE of an output file. For each of the four files and each size at
+	// which encoding/json's Decoder has just filled its buffer (512, 1536, 3584 bytes): a well-formed
+	// text of exactly that size (accepted), the same followed by garbage glued to it, and a text whose
+	// first document plus the line end after it has that size, followed by the cut-off beginning of a
+	// second document (both malformed: the execution fails, nothing is applied). Everything else in the
+	// execution is well-formed.
+	r.One(11, func(c *Case, rng *Rng) {
+		env, err := c12Setup(r, c, c12HookFiles[:2])
+		if err != nil {
+			c.Op("setup", "harness-error "+err.Error())
+			return
+		}
+		defer env.close()
+		var xs []*c12Exec
+		for _, kind := range []string{"metrics", "admission", "conversion", "patch"} {
+			for bi, b := range []int{512, 1536, 3584} {
+				for variant := 0; variant < 3; variant++ {
+					eid := len(xs) + 1
+					x := &c12Exec{eid: eid, hook: eid % 2, q: 1 + eid%2, nctx: 1, texted: true, pfmt: "json",
+						metrics: "valid", adm: "valid", conv: "valid", patch: "valid"}
+					x.mtext = fmt.Sprintf(`{"name":"%s","set":1}`, c12MetricName(eid)) + "\n"
+					x.atext = `{"allowed":true}` + "\n"
+					x.ctext = `{"convertedObjects":[{"apiVersion":"v1","kind":"X"}]}` + "\n"
+					x.ptext = fmt.Sprintf(`{"operation":"Create","object":{"apiVersion":"v1","kind":"ConfigMap","metadata":{"name":"%s","namespace":"default"}}}`, c12ObjName(eid)) + "\n"
+					field := map[string]*string{"metrics": &x.mtext, "admission": &x.atext, "conversion": &x.ctext, "patch": &x.ptext}[kind]
+					doc := strings.TrimSuffix(*field, "\n")
+					pad := []string{"field", "inside", "before"}[(bi+variant)%3]
+					if kind == "patch" && pad == "field" {
+						pad = "inside"
+					}
+					var text string
+					var ok bool
+					class := "garbage"
+					switch variant {
+					case 0: // exactly b bytes, line end included
+						text, ok = c12Size(rng, kind, doc+"\n", b, "total", pad)
+						class = "valid"
+					case 1: // b bytes, then garbage
+						text, ok = c12Size(rng, kind, doc+PickOne(rng, []string{"x", "}", "]", "garbage", ",", "\x00"}), b, "first", pad)
+					default: // b bytes with the line end, then the beginning of a second document
+						text, ok = c12Size(rng, kind, doc+"\n"+doc[:1+rng.Intn(len(doc)-1)], b, "firstws", pad)
+					}
+					if ok && kind == "patch" && variant > 0 && c12IsYAML(text) {
+						// (damaged JSON that a YAML reader accepts is outside the generator's class)
+						text, ok = c12Size(rng, kind, doc+"}", b, "first", pad)
+						ok = ok && !c12IsYAML(text)
+					}
+					if !ok {
+						c.Op("setup", "harness-error cannot size the "+kind+" text")
+						return
+					}
+					*field = text
+					switch kind {
+					case "metrics":
+						x.metrics = class
+					case "admission":
+						x.adm = class
+					case "conversion":
+						x.conv = class
+					case "patch":
+						x.patch = class
+					}
+					x.sizeNotes = []string{"sized-file:" + kind, fmt.Sprintf("sized-at:%s-on-boundary-%d", []string{"total", "first", "firstws"}[variant], b)}
+					xs = append(xs, x)
+				}
+			}
+		}
+		for _, x := range xs {
+			_ = env.writeScripts(x, rng)
+		}
+		env.runAll(xs)
+		env.report(c, xs)
+		c12Notes(c, xs)
+		c.Note("corpus")
+		c.Desc = "corpus: output files whose first document ends exactly where a reader's buffer ends (512 / 1536 / 3584 bytes): well-formed, followed by garbage, followed by the beginning of a second document — in each of the four files"
+		c.Nontrivial = true
+	})
+
+	// sixth wave: generated cases in which every execution has ONE file with a landmark on / next to a
+	// read boundary (well-formed, or with something after the first document, or cut), the other files
+	// well-formed or empty, exit 0 mostly
+	r.Cases(80000, r.N(16, 240), 0, func(c *Case, rng *Rng) {
+		rng = c13Reseed(rng)
+		nh := rng.Range(1, 2)
+		env, err := c12Setup(r, c, c12HookFiles[:nh])
+		if err != nil {
+			c.Op("setup", "harness-error "+err.Error())
+			return
+		}
+		defer env.close()
+		n := rng.Range(2, 5)
+		nq := rng.Range(1, 2)
+		var xs []*c12Exec
+		for i := 1; i <= n; i++ {
+			good := func() string { return PickOne(rng, []string{"valid", "valid", "empty"}) }
+			x := &c12Exec{eid: i, hook: rng.Intn(nh), q: 1 + rng.Intn(nq), allow: rng.Chance(15), nctx: rng.Range(1, 2),
+				metrics: good(), adm: good(), conv: good(), patch: good()}
+			if rng.Chance(10) {
+				x.exit = PickOne(rng, []int{1, 2, 255})
+			}
+			kind := PickOne(rng, []string{"metrics", "admission", "conversion", "conversion", "patch"})
+			class := PickOne(rng, []string{"valid", "valid", "garbage", "garbage", "strayclose", "strayclose", "truncated", "badtoken", "twodocs"})
+			if class == "twodocs" && (kind == "metrics" || kind == "patch") {
+				class = "garbage" // (two documents are a well-formed stream)
+			}
+			switch kind {
+			case "metrics":
+				x.metrics = class
+			case "admission":
+				x.adm = class
+			case "conversion":
+				x.conv = class
+			case "patch":
+				x.patch = class
+			}
+			x.sizePct = map[string]int{kind: 100}
+			if err := env.writeScripts(x, rng); err != nil {
+				c.Op("setup", "harness-error "+err.Error())
+				return
+			}
+			xs = append(xs, x)
+		}
+		env.runAll(xs)
+		env.report(c, xs)
+		c12Notes(c, xs)
+		c.Note(fmt.Sprintf("executions:%d", n))
+		c.Desc = fmt.Sprintf("%d executions, each with one output file sized to a read boundary", n)
 		c.Nontrivial = true
 	})
 
